@@ -46,6 +46,14 @@ pub fn c01(ctx: &Ctx) -> PropResult {
     for src in operand_order_family() {
         cases.push(run_case(src, "operand-order"));
     }
+    // the value of + on lists is a new list: changing it later changes neither operand, and vice versa
+    for x in ["l", "[]", "[1]", "m", "(l + [])", "([] + l)"] {
+        for y in ["l", "[]", "[1]", "m"] {
+            for later in ["APPEND(c, 9)", "c[1] <- 0", "APPEND(l, 8)", "REMOVE(m, 1)", "INSERT(c, 1, [c])"] {
+                cases.push(run_case(format!("l <- [1, 2, 3]\nm <- [[4], \"q\"]\nc <- {x} + {y}\nDISPLAY(c)\n{later}\nDISPLAY(l)\nDISPLAY(m)\nDISPLAY(c)\nd <- c + c\nAPPEND(d, 7)\nDISPLAY(c)\nDISPLAY(d)\n"), "concat-is-fresh"));
+            }
+        }
+    }
     // random expression trees with probes at the operands
     let mut rng = mk_rng(ctx.seed, 1);
     let n = if ctx.quick() { 4_000 } else { 100_000 };
@@ -281,6 +289,21 @@ pub fn c02(ctx: &Ctx) -> PropResult {
             cases.push(run_case(format!("PROCEDURE c() {{\nDISPLAY(\"cond\")\nRETURN k >= 3\n}}\nk <- 0\nREPEAT UNTIL (c()) {{\nk <- k + 1\nIF (k == {at}) {{\n{ctl}\n}}\nDISPLAY(\"tail\")\n}}\nDISPLAY(k)\n"), "until-effectful-condition"));
         }
     }
+    // REPEAT n TIMES runs exactly floor(n) times: counts just below and just above integers, from decimal arithmetic
+    for count in ["0.29 * 100", "0.9999999999999998", "2.9999999999999996", "1.0000000000000002", "4.35 * 100", "3 - 0.0000000000000004", "0.1 * 3 * 10", "1 / 3 * 3", "0.7 + 0.2 + 0.1", "5.000000000000001", "4.999999999999999", "0.5 + 0.49999999999999994", "100 * 1.1", "-0.0000001", "2 - 1.9999999999999998"] {
+        cases.push(run_case(format!("k <- 0\nREPEAT {count} TIMES {{\nk <- k + 1\n}}\nDISPLAY(k)\nn <- {count}\nk <- 0\nREPEAT n TIMES {{\nk <- k + 1\nIF (k > 1000) {{\nBREAK\n}}\n}}\nDISPLAY(k)\n"), "repeat-count-near-integer"));
+    }
+    // a bare block inside a loop body: BREAK / CONTINUE / RETURN becoming pending inside it end the iteration
+    for ctl in ["BREAK", "CONTINUE"] {
+        for (head, tail) in [("REPEAT 3 TIMES {", "}"), ("k <- 0\nREPEAT UNTIL (k >= 3) {\nk <- k + 1", "}"), ("FOR EACH x IN [1, 2, 3] {", "}")] {
+            for depth in 1..4 {
+                let open = "{\n".repeat(depth);
+                let close = "}\n".repeat(depth);
+                cases.push(run_case(format!("c <- 0\n{head}\nc <- c + 1\nDISPLAY(\"before\")\n{open}IF (c == 2) {{\n{ctl}\n}}\nDISPLAY(\"inside\")\n{close}DISPLAY(\"after block\")\n{tail}\nDISPLAY(c)\n"), "ctl-in-bare-block"));
+                cases.push(run_case(format!("c <- 0\n{head}\nc <- c + 1\n{open}{ctl}\n{close}DISPLAY(\"after block\")\n{tail}\nDISPLAY(c)\n"), "ctl-in-bare-block"));
+            }
+        }
+    }
     // BREAK / CONTINUE at the end of a line are complete statements (twin with an explicit `;`)
     for ctl in ["BREAK", "CONTINUE"] {
         for next in ["-1", "(2)", "[3]", "\"dead\"", "z <- 4", "DISPLAY(\"next\")", "NOT TRUE"] {
@@ -378,6 +401,25 @@ pub fn c03(ctx: &Ctx) -> PropResult {
     for f in fixed {
         cases.push(run_case(f.to_string(), "fixed-scenario"));
     }
+    // names are exact: another casing of a defined name (library or user) is undefined, raised before anything runs
+    for (decl, call) in [("", "display(1)"), ("", "Display(1)"), ("l <- [1]\n", "DISPLAY(length(l))"), ("l <- [1]\n", "append(l, 2)"), ("PROCEDURE SHOUT() {\nDISPLAY(\"in SHOUT\")\n}\n", "shout()"), ("PROCEDURE whisper() {\nDISPLAY(\"in whisper\")\n}\n", "WHISPER()"), ("PROCEDURE Mixed() {\nDISPLAY(\"in Mixed\")\n}\n", "mixed()"), ("PROCEDURE f() {\nRETURN 1\n}\nPROCEDURE F() {\nRETURN 2\n}\n", "DISPLAY(f() + F() * 10)")] {
+        cases.push(run_case(format!("{decl}DISPLAY(\"before\")\n{call}\nDISPLAY(\"after\")\n"), "name-casing"));
+    }
+    // activations are independent: nothing of an earlier activation (parameters, locals, lists) is seen by a later one
+    let bodies = [
+        ("leaves", "p", "loc <- p\nlst <- [p, p * 10]\nRETURN lst\n"),
+        ("reads", "p", "RETURN loc\n"),
+        ("reads_list", "p", "APPEND(lst, p)\nRETURN lst\n"),
+        ("reads_param", "q", "RETURN p\n"),
+        ("fresh", "p", "lst <- []\nAPPEND(lst, p)\nRETURN lst\n"),
+        ("shadow", "p", "loc <- [p]\nRETURN loc\n"),
+    ];
+    for (n1, p1, b1) in bodies {
+        for (n2, p2, b2) in bodies {
+            let src = format!("PROCEDURE {n1}_a({p1}) {{\n{b1}}}\nPROCEDURE {n2}_b({p2}) {{\n{b2}}}\nr1 <- {n1}_a(1)\nDISPLAY(r1)\nr2 <- {n1}_a(2)\nDISPLAY(r1)\nDISPLAY(r2)\nr3 <- {n2}_b(3)\nDISPLAY(r1)\nDISPLAY(r2)\nDISPLAY(r3)\n");
+            cases.push(run_case(src, "activation-independence"));
+        }
+    }
     // arguments left to right, each once, bound by value at the moment they are evaluated
     for src in operand_order_family() {
         if src.contains("f3(") {
@@ -418,7 +460,11 @@ pub fn c04(ctx: &Ctx) -> PropResult {
             let v = vars[rng.below(2)];
             let w = vars[rng.below(3)];
             let i = idx[rng.below(idx.len())].replace("(a)", &format!("({v})"));
-            let stmt = match rng.below(21) {
+            let stmt = match rng.below(25) {
+                21 => format!("{v} <- {w} <- [{}, {}]", rng.below(9), rng.below(9)),
+                22 => format!("DISPLAY({v} <- [{}] + [{}])", rng.below(9), rng.below(9)),
+                23 => format!("d <- ({v} <- [{}, 0])", rng.below(9)),
+                24 => format!("{v} <- d <- {w}"),
                 16 => format!("d <- {v} + []"),
                 17 => format!("d <- [] + {v}"),
                 18 => format!("d <- {v} + {w}"),
